@@ -121,6 +121,8 @@ def flatten_eq(which: int, xss: List[List[int]], a: int) -> bool:
     elif which == 3:
         spec = Flatten([T + [a]])          # subspec builds new lists
         ref = list(itertools.chain.from_iterable(x + [a] for x in xss))
+    elif which == 8:
+        spec = Sum(init=list)              # "summing" lists: the first input element must not become the accumulator
     elif which == 4:
         got = flatten(xss)
         spec = None
@@ -308,7 +310,7 @@ def obligations(tier):
     for w in range(10):
         pre = 'len(xs) <= %d' % L if w != 8 else 'len(xs) <= 3 and all(-2 <= x <= 2 for x in xs)'
         obs.append(Ob(sum_eq, fixed={'which': w}, pre=pre, name='sum_eq_%d' % w))
-    for w in range(8):
+    for w in range(9):
         pre = 'len(xss) <= %d and all(len(x) <= %d for x in xss)' % ((3, 2) if q else (4, 3))
         if w == 3:
             pre = 'len(xss) <= 2 and all(len(x) <= 2 for x in xss)'
